@@ -307,3 +307,33 @@ func vh_C13_L3_learned_from_init_ack() {
 // C13.L4b: a handshake chunk that is discarded because of the association's state changes
 // nothing about the checksum negotiation either (= C04.L2).
 func vh_C13_L4_discarded_handshake_chunk_changes_nothing() { vh_C04_L2_stale_chunks_ignored() }
+
+// C13.L4c: an INIT ACK that does not belong to this association (its ports do not match)
+// teaches nothing. A client in COOKIE-WAIT receives such an INIT ACK carrying Zero Checksum
+// Acceptable (and a cookie, and any extension list): it is discarded whole - the state, what
+// the peer is believed to accept as checksum and the negotiated framing are as before, and no
+// COOKIE ECHO is sent. (The peer's tag and initial TSN are overwritten before the port check
+// on the pinned tree and set again by the INIT ACK that is honoured; not part of this property.)
+func vh_C13_L4_misdirected_init_ack_teaches_nothing() {
+	a := vHandshakeEndpoint(vPick(2) == 1, vPick(2) == 1)
+	a.initClient()
+	_ = vWriterWake(a)
+	vassert(a.getState() == cookieWait, "INIT sent")
+	ack := &chunkInitAck{}
+	ack.initiateTag, ack.initialTSN = 1+nondetU32()%0xfffffffe, nondetU32()
+	ack.numOutboundStreams, ack.numInboundStreams = 10, 10
+	ack.advertisedReceiverWindowCredit = 1 << 16
+	setSupportedExtensions(&ack.chunkInitCommon, nondetBool())
+	ack.params = append(ack.params, &paramZeroChecksumAcceptable{edmid: dtlsErrorDetectionMethod}, &paramStateCookie{cookie: nondetBytes(4)})
+	src, dst := nondetU16(), nondetU16()
+	vassume(src != a.destinationPort || dst != a.sourcePort)
+	raw, err := (&packet{sourcePort: src, destinationPort: dst, verificationTag: a.myVerificationTag, chunks: []chunk{ack}}).marshal(true)
+	vassert(err == nil, "INIT ACK marshals")
+	sz, il := a.sendZeroChecksum, a.peerInterleaving
+	vInbound(a, raw)
+	vassert(a.getState() == cookieWait, "the state is unchanged")
+	vassert(a.sendZeroChecksum == sz, "what the peer accepts as checksum is not learned from a packet that is discarded")
+	vassert(a.peerInterleaving == il, "nor are its capabilities")
+	vassert(len(vWriterWake(a)) == 0 && a.storedCookieEcho == nil, "no COOKIE ECHO is sent")
+	vcover("end")
+}
